@@ -27,7 +27,7 @@ def budget(tier):
 
 def gen(rng, idx, tier):
     op = S.OPS[idx % len(S.OPS)] if idx < 4 * len(S.OPS) else rng.choice(S.OPS)
-    sc = {"op": op, "beh": S.gen_behaviour(rng, op), "msg_id": rng.choice([1, 5, 77, 65535]),
+    sc = {"op": op, "beh": S.gen_behaviour(rng, op), "msg_id": rng.choice([0, 1, 5, 77, 65535]),
           "max_pdu": rng.choice([0, 256, 16382]), "second_echo": True,
           "sched": C.gen_sched(rng, fine_pct=15), "net": C.gen_net(rng)}
     if op in S.GEN_OPS and rng.randrange(4) == 0:
